@@ -75,11 +75,11 @@ pub open spec fn udp_image(v: AddrV, payload: Seq<u8>) -> Seq<u8> {
         let ghost sid0 = frame.session_id;
 //@ end
 
-//@ hint decode_socks_frame before `match atyp`
+//@ hint decode_socks_frame before `let target: TargetAddress = match`
         let ghost a0 = b0.skip(3);
         proof {
             assert(body@ =~= a0.skip(1));
-            assert(a0.len() >= 1 && a0[0] == atyp);
+            assert(a0.len() >= 1);
         }
 //@ end
 
